@@ -287,6 +287,8 @@ class Engine:
             st.vars[nm] = self.symbolic(nm, ty, inp=True)
         for nm, spec in c.ghost.items():
             st.vars[nm] = self.symbolic(nm, parse_type(spec), inp=True)
+        for nm, spec in c.d.get("closure", {}).items():
+            st.vars[nm] = self.symbolic(nm, parse_type(spec), inp=True)  # free variables of a nested function (its closure)
         for nm, spec in c.d.get("ghost_state", {}).items():
             st.vars[nm] = self.symbolic(nm, parse_type(spec), inp=True)
         if self.events_enabled:
